@@ -83,7 +83,7 @@ pub fn xform_strategy(_t: Tier) -> BoxedStrategy<XformCase> {
         0usize..=3,
         prop_oneof![5 => Just(1usize), 2 => Just(2usize), 1 => 3usize..=4],
         (0u8..6, any::<u16>()),
-        (0u8..5, any::<u16>()),
+        (0u8..6, any::<u16>()),
         any::<bool>(),
         any::<u64>(),
     )
@@ -109,6 +109,13 @@ pub fn xform_strategy(_t: Tier) -> BoxedStrategy<XformCase> {
                 1 => (pos + size).min(max_delta) / size * size,
                 2 => max_delta, // table end
                 3 => (gen::idx_map(sraw, max_delta / size)) * size,
+                // unaligned offsets 2^a - 3*2^b: the third multiplier of the first two-layer group is then
+                // the "vanishing" sentinel entry of the skew table (a branch aligned offsets never reach)
+                5 => {
+                    let a = 2 + (sraw as u32 % 15);
+                    let b = (sraw as u32 >> 8) % (a - 1);
+                    ((1usize << a) - 3 * (1usize << b)).min(max_delta)
+                }
                 _ => gen::idx_map(sraw, max_delta),
             };
             let (pos, blocks) = if size_log >= 14 { (pos.min(8), 1) } else { (pos, blocks) };
